@@ -207,13 +207,9 @@ func (t *Indexer) GetBlockHeaderByHeight(height uint64) (*lib.BlockResult, lib.E
 		return nil, err
 	}
 	// get block from hash key
-	block, err := t.getBlock(hashKey, false)
-	if err != nil {
-		return nil, err
-	}
-	// populate cache on read so historical blocks are warm after a restart
-	blockCache.Add(height, block)
-	return block, nil
+	// NOTE: the header-only result (no transactions) must not be added to the block cache: GetBlockByHeight()
+	// answers from that cache, so the node would afterwards serve a transaction-less block for this height
+	return t.getBlock(hashKey, false)
 }
 
 // GetBlocks() returns a page of blocks based on the page parameters
